@@ -109,6 +109,12 @@ def sampleParse (impl : String) (n : String) (v : JV) : ParseOut :=
     | .obj _ => .raised
     | .str s => .value (.dict [("v", .str s)])
     | _ => .refused
+  | "pos" =>
+    match v with
+    | .int k => if k > 0 then .value (.int k) else .refused
+    | .str s => if s.toList.all PyGql.PyNum.isDigit && s != "" then
+        (match PyGql.PyNum.pyInt10 s with | some k => if k > 0 then .value (.int k) else .refused | none => .refused) else .refused
+    | _ => .refused
   | _ => defaultScalarParse n v
 
 def sampleParseLiteral (impl : String) (n : String) (l : Lit) : ParseOut :=
@@ -121,6 +127,13 @@ def sampleParseLiteral (impl : String) (n : String) (l : Lit) : ParseOut :=
     match l with
     | .str s => .value (.dict [("v", .str s)])
     | _ => .refused
+  | "pos" =>                                   -- no parse_literal of its own: `ScalarType.parse_literal` = parse(node.value)
+    match l with
+    | .int k => sampleParse "pos" n (.str (toString k))      -- IntValue.value is the text
+    | .float t => sampleParse "pos" n (.str t)
+    | .str s => sampleParse "pos" n (.str s)
+    | .bool b => sampleParse "pos" n (.bool b)
+    | _ => .raised
   | _ => defaultScalarParseLiteral n l
 
 def regOfWire (j : J) : Reg :=
@@ -129,7 +142,8 @@ def regOfWire (j : J) : Reg :=
   let implOf (n : String) : String := ((impls.find? fun p => p.1 == n).map (·.2)).getD "identity"
   { types := (j.arrD "types").map namedOfWire,
     customParse := fun n v => sampleParse (implOf n) n v,
-    customParseLiteral := fun n l => sampleParseLiteral (implOf n) n l }
+    customParseLiteral := fun n l => sampleParseLiteral (implOf n) n l,
+    customHasParseLiteral := fun n => implOf n != "pos" }
 
 def pairs {α} (f : J → α) (j : J) (k : String) : List (String × α) :=
   (j.arrD k).map fun kv =>
